@@ -1,6 +1,7 @@
 """Shared pieces of the M1 property checks (C01 C02 C03 C04 C12 C17 C18): case construction for the Coq
 correspondence, implementation-level observations and metamorphic helpers."""
 import math
+import os
 import numpy as np
 import core
 import fpgen
@@ -134,6 +135,28 @@ def gen_cases(ctx, n, with_queries=True, opt_filter=None, pool=None):
     return out
 
 
+def reused_cases(ctx, n_mols=7, n_confs=4):
+    """Cases observed on ONE Fingerprinter object reused over the conformers of ONE molecule object (what
+    fprints_dict_from_mol does), each queried at every explicit level, reached by that conformer or not."""
+    from e3fp.fingerprint.fprinter import Fingerprinter
+    out = []
+    for name, m0 in molgen.shipped()[:n_mols]:
+        o = dict(molgen.DEFAULT_OPTS, level=ctx.rng.choice([4, 5]), mult=ctx.rng.choice([1.5, 1.718]))
+        f = Fingerprinter(level=o['level'], radius_multiplier=o['mult'])
+        ids = [conf.GetId() for conf in list(m0.GetConformers())[:n_confs]]
+        m = molfacts.gridded(m0, conf_ids=set(ids))
+        for cid in ids:
+            c = Case(name + ' (reused fingerprinter)', m, cid, o, reuse=f)
+            if c.unstable:
+                continue
+            if c.err is None:
+                for lv in range(0, o['level'] + 2):
+                    c.add_query(lv, 2 ** 32 if lv % 2 else 1024, [])
+            out.append(c)
+    ctx.coverage.setdefault('input_distribution', {})['reused_fingerprinter_cases'] = len(out)
+    return out
+
+
 def run_cases(ctx, cases, what, finding_key_of=None, shard=None):
     core.coq_make(['theories/Exec/RunM1.vo'])
     exprs, payloads, mexpr = [], {}, {}
@@ -194,3 +217,32 @@ def is_unstable(mol, cid, o):
         return False
     except m1_spec.Unstable:
         return True
+
+
+def replay_case(ctx, path):
+    """bin/check <ID> --replay <file>: re-run the recorded (molecule, conformer, options) on the implementation and on the
+    model and report whether they (still) disagree."""
+    import json
+    from rdkit import Chem
+    d = json.load(open(path))
+    c = d.get('case', {})
+    print('replay of %s: %s' % (path, d.get('what', '')[:200]))
+    if 'molblock' not in c or 'opts' not in c:
+        print(json.dumps({k: v for k, v in c.items() if k != 'molblock'}, indent=1)[:6000])
+        print('(this replay file carries no single model input; the recorded observation is shown above)')
+        return 0
+    m = Chem.MolFromMolBlock(c['molblock'], removeHs=False)
+    o = c['opts']
+    case = Case(c.get('name', 'replay'), m, 0, o, bits=c.get('bits', 2 ** 32), counts=c.get('counts', False))
+    for q in c.get('queries', []):
+        case.add_query(q['level'], q['bits'], q['mask'])
+    core.coq_make(['theories/Exec/RunM1.vo'])
+    res, logs = core.coq_eval_bools([('replay', case.expr())], IMPORTS, os.path.join(ctx.workdir, 'replay'))
+    print('implementation: ' + ('raises %s' % case.exc if case.err else 'current_level=%d, %s' % (case.k, {l: len(v) for l, v in case.obs.items()})))
+    print('model output  : ' + core.coq_eval_raw(case.model_expr(), IMPORTS, os.path.join(ctx.workdir, 'replay'))[-2500:])
+    print('unstable (near a decision threshold): %s' % case.unstable)
+    if res.get('replay') is True:
+        print('model and implementation AGREE on this input now')
+        return 0
+    print('VIOLATION property=%s replay=%s' % (ctx.pid, path))
+    return 1
